@@ -547,27 +547,49 @@ def run(ctx, chk):
         assigns = [s["e"] for s in body if s.get("k") == "expr" and s["e"].get("k") == "assign" and s["e"]["l"].get("k") == "path"]
         ifs = [s["e"] for s in body if s.get("k") == "expr" and s["e"].get("k") == "if"]
         nl_if = [i for i in ifs if any(m["name"] == "println" for m in macros(i["then"]))]
-        if len(assigns) != 1 or len(nl_if) != 1:
+        if len(assigns) > 1 or len(nl_if) != 1:
             chk.undecided_("C17.R6", label, "column counter / newline branch not recognised")
             continue
-        var = assigns[0]["l"]["segs"][0]
-        ok_ = True
-        state = 0
-        seen_states = set()
-        newline_at = []
-        for step in range(64):
-            c = eval_int(nl_if[0]["cond"], {var: state})
-            nxt = eval_int(assigns[0]["r"], {var: state})
-            if c is None or nxt is None:
-                ok_ = None
-                break
-            if c:
-                newline_at.append(step + 1)
-            seen_states.add(state)
-            state = nxt
-        if ok_ is None:
+        # the row layout as a finite-state fact, for several start addresses: the loop variable is start+step, the column
+        # counter (if there is one) follows its own assignment.  The newline must come after every 16th byte *of the range*,
+        # whatever the address of its first byte.
+        var = assigns[0]["l"]["segs"][0] if assigns else None
+        pat_ = loops[0].get("pat") or {}
+        iv = pat_.get("name") if pat_.get("k") == "ident" else None
+        it_ = loops[0].get("iter") or {}
+        lo_ = it_.get("lo") if it_.get("k") == "range" else None
+        lo_name = lo_["segs"][0] if lo_ and lo_.get("k") == "path" and len(lo_["segs"]) == 1 else None
+        results = {}
+        for start in (0, 1, 7, 15, 16, 0x123):
+            state = 0
+            newline_at = []
+            seen_states = set()
+            for step in range(64):
+                env = {}
+                if var:
+                    env[var] = state
+                if iv:
+                    env[iv] = start + step
+                if lo_name:
+                    env[lo_name] = start
+                c = eval_int(nl_if[0]["cond"], env)
+                nxt = eval_int(assigns[0]["r"], env) if assigns else 0
+                if c is None or nxt is None:
+                    newline_at = None
+                    break
+                if c:
+                    newline_at.append(step + 1)
+                seen_states.add(state)
+                state = nxt
+            results[start] = newline_at
+        if any(v is None for v in results.values()):
             chk.undecided_("C17.R6", label, "counter expressions not evaluable")
-        elif newline_at == [16, 32, 48, 64]:
-            chk.ok("C17.R6", label, f"newline after bytes {newline_at[:3]}..: 16 per row, counter states {len(seen_states)}")
+        elif all(v == [16, 32, 48, 64] for v in results.values()):
+            chk.ok("C17.R6", label, f"newline after bytes 16, 32, 48..: 16 per row for start addresses {sorted(results)}")
+        elif results[0] == [16, 32, 48, 64]:
+            bad = next(st_ for st_, v in sorted(results.items()) if v != [16, 32, 48, 64])
+            chk.violation("C17.R6", label, "row-break-depends-on-address",
+                          f"{label}: rows are broken by the address, not by the number of bytes shown: a range starting at {bad} gets its newlines after bytes {results[bad][:3]} "
+                          f"instead of after every 16th", f"{file}:{p['line']}", f"print mem {bad} -> {bad + 40}")
         else:
-            chk.violation("C17.R6", label, f"row-length:{newline_at[:3]}", f"{label}: newline is emitted after bytes {newline_at[:4]} instead of every 16th", f"{file}:{p['line']}")
+            chk.violation("C17.R6", label, f"row-length:{results[0][:3]}", f"{label}: newline is emitted after bytes {results[0][:4]} instead of every 16th", f"{file}:{p['line']}")
